@@ -42,6 +42,12 @@ CLAIMED = {
     },
 }
 
+CLAIMED["C18"] = {
+    "text": "Hypothesis-generated (data incl. NaN placements, chunking with up to 17 blocks on a reduced axis, reduction, axis set, keepdims, split_every int/dict, ddof/order/k, optional index on top, 1-3 chunkings of the same data) for all 25 listed reductions, compared with NumPy. " + EXPL,
+    "note": "NumPy is the reference (moment: mean((x-mean)^k) on real data; topk: sorted extremes); tolerance 256 eps*M^p + 1024 eps relative; cases where NumPy's own evaluation overflows or raises ZeroDivisionError are rejected and counted; three listed open findings excluded and counted.",
+    "technique": "property-based testing: random reductions vs NumPy reference, metamorphic over chunkings and tree fan-in",
+}
+
 NOT_APPLICABLE = {
     "C22": "native Rust extension cannot be built offline (pyo3 0.29 and other crates are absent from the offline cargo registry; no prebuilt .so), so no native layer can be instantiated to generate inputs against; see DESIGN.md section 4 C22",
 }
